@@ -249,6 +249,16 @@ def predict_and_check(zd: Path, day: dt.date):
 
 
 def step(st: B.St, ev: str) -> B.StepResult:
+    # the zone of the machine is part of the state: "today" is the LOCAL calendar day, also when
+    # the UTC calendar day is another one
+    H.set_zone(st.extra.get("zone", "utc-noon"))
+    try:
+        return _step(st, ev)
+    finally:
+        H.set_zone()
+
+
+def _step(st: B.St, ev: str) -> B.StepResult:
     src = Path(st.path)
     guards = dict(st.guards)
     day = st.day
@@ -273,10 +283,10 @@ def step(st: B.St, ev: str) -> B.StepResult:
                 return B.StepResult(None)
         hist = st.hist + [ev]
         new = B.St(path=str(zd), day=day, hist=hist, guards=guards, extra=dict(st.extra))
-        new.key = H.digest([D.state_digest(zd, day), sorted(guards.items())])
+        new.key = H.digest([D.state_digest(zd, day), sorted(guards.items()), st.extra.get("zone", "utc-noon")])
         if problem:
             detail = dict(problem[1])
-            detail.update({"history": hist, "day": day.isoformat()})
+            detail.update({"history": hist, "day": day.isoformat(), "zone": st.extra.get("zone", "utc-noon")})
             problem = (problem[0], detail)
         return B.StepResult(new, problem, judged, 1, nontrivial=nontrivial)
     except Exception:
@@ -313,6 +323,12 @@ def make_inits(day: dt.date):
         s = B.St(path=str(zd), day=d, hist=[], guards=g, extra={"init": name, "prefix": pre})
         s.key = H.digest([D.state_digest(zd, d), sorted(g.items())])
         inits.append(s)
+    # the same directory on a machine whose local calendar day is not the UTC calendar day
+    for zone in ("east-night", "west-evening"):
+        zd = Z.copy_zdir(base, tag="c11i")
+        s = B.St(path=str(zd), day=day, hist=[], guards={}, extra={"init": "indexed-on-day-0@" + zone, "zone": zone})
+        s.key = H.digest([D.state_digest(zd, day), [], zone])
+        inits.append(s)
     return inits
 
 
@@ -322,14 +338,15 @@ def run(ctx: F.Ctx):
     inits = make_inits(day)
     rep = F.Report()
     depths = {"indexed-on-day-0": 3 if ctx.quick else 5, "N1-stamped-today": 3 if ctx.quick else 4,
-              "N1-stamped-yesterday": 3 if ctx.quick else 4}
+              "N1-stamped-yesterday": 3 if ctx.quick else 4,
+              "indexed-on-day-0@east-night": 2 if ctx.quick else 3, "indexed-on-day-0@west-evening": 2 if ctx.quick else 3}
     depth = depths
     for s in inits:
         rep.merge(B.search(ctx, [s], EVENTS, step, depths[s.extra["init"]], max_states=60000))
     rep.samples = rep.samples[:4]
     meta = {
         "rule": (
-            "BFS from 3 initial states (a directory indexed on day 0; the same after a note was edited and stamped the same day; the same one day later) -- the directory holds (a page holding a plain note, a todo with "
+            "BFS from 5 initial states (a directory indexed on day 0; the same after a note was edited and stamped the same day; the same one day later; the first again on a machine at UTC+2 at 00:30 and at UTC-8 at 19:30, where the local calendar day is not the UTC calendar day, to a smaller depth) -- the directory holds (a page holding a plain note, a todo with "
             "priority, a multi-line note with a bullet, a note stamped on an earlier day, a note "
             "created today, each next to an untouched neighbour, plus a note in a section and an "
             "untouched second page) over 13 events: edit the body of each of 5 notes (twice each), "
